@@ -125,6 +125,10 @@ proc_line(const struct mass_add_clo_s *clo, char *line, size_t llen)
 			}
 		} else if (clo->sed_mode_p) {
 			llen = !(clo->empty_mode_p && !nmatch) ? llen : 0U;
+			if (prchunk_crlfp(clo->pctx)) {
+				/* put the \r back that the reader took */
+				line[llen++] = '\r';
+			}
 			line[llen] = '\n';
 			__io_write(line, llen + 1, stdout);
 			break;
